@@ -501,7 +501,6 @@ func VerifC10Race(h *verifrt.H) {
 		defer s.CeaseVigil()
 		switch scenario {
 		case 0:
-			h.Known("C10-getall-returns-internal-map", "race", true)
 			n := 0
 			for _, t := range s.GetAll() {
 				_ = t.GetKey()
@@ -509,7 +508,6 @@ func VerifC10Race(h *verifrt.H) {
 			}
 			h.Assert(n == 2 || n == 3, "listing-size")
 		case 1:
-			h.Known("C10-cold-index-build-iterates-internal-map", "race", true)
 			got, err := s.GetTreasuresByBeacon(BeaconTypeCreationTime, IndexOrderAsc, 0, 0, nil, nil)
 			h.Assert(err == nil && (len(got) == 2 || len(got) == 3), "cold-index-read")
 		case 2:
